@@ -202,7 +202,9 @@ Record lcase := mkLCase {
   lc_enabled_agg : list str;             (* DetermineEnabledAggregateRules                            *)
   lc_noticed : list (str * str);         (* bundled rules with an input-independent notice (oracle)   *)
   lc_aggregate_rules : list (str * str); (* bundled rules defining `aggregate` (oracle)               *)
-  lc_to_run : list (str * str) }.        (* main.rego's _rules_to_run for the linted file             *)
+  lc_custom_aggregate : list (str * str);(* loaded custom rules defining `aggregate`                  *)
+  lc_to_run : list (str * str);          (* main.rego's _rules_to_run for the linted file             *)
+  lc_custom_reporting : list str }.      (* loaded custom rules that reported a violation in Lint     *)
 
 Definition lcase_full_ok (l : lcase) : ecase :=
   let c := lc_case l in
@@ -250,19 +252,21 @@ Definition enabled_agrees (l : lcase) : bool :=
   let c := lcase_full_ok l in
   same_set (lc_enabled l)
            (determine_enabled_rules (ec_params c) (merged_of c) bundled_rules
-                                    (fun cat t => pair_in cat t (lc_noticed l))).
+                                    (fun cat t => pair_in cat t (lc_noticed l)) (ec_custom c)).
 
 Definition enabled_agg_agrees (l : lcase) : bool :=
   let c := lcase_full_ok l in
   same_set (lc_enabled_agg l)
-           (determine_enabled_rules (ec_params c) (merged_of c) (lc_aggregate_rules l) (fun _ _ => false)).
+           (determine_enabled_aggregate_rules (ec_params c) (merged_of c) (lc_aggregate_rules l)
+                                              (lc_custom_aggregate l)).
 
 (* the property on the implementation's own outputs: the list computed up front is exactly the
-   bundled rules main.rego would run and that have no notice *)
+   bundled rules main.rego would run and that have no notice, plus the custom rules that report *)
 Definition enabled_is_runnable (l : lcase) : bool :=
   negb (lc_full l) ||
   same_set (lc_enabled l)
-           (map snd (filter (fun ct => negb (pair_in (fst ct) (snd ct) (lc_noticed l))) (lc_to_run l))).
+           (map snd (filter (fun ct => negb (pair_in (fst ct) (snd ct) (lc_noticed l))) (lc_to_run l))
+            ++ lc_custom_reporting l).
 
 Definition lcase_agrees (l : lcase) : bool :=
   case_agrees (lcase_full_ok l) && lint_agrees l && enabled_agrees l && enabled_agg_agrees l.
